@@ -41,9 +41,35 @@ def run(chk):
     shadow_rule(chk, fx, fn)
     use_rule(chk, fx)
     scope_rule(chk, fx, fn)
+    forget_rule(chk, fx)
     args_rules(chk, fx, fn)
     return ('Visitor-completeness over OwnershipChecker::check_expr (same engine as C22). Decides "every use position is visited"; '
             'which positions move a value and scoping are not decided.'), {}
+
+
+def forget_rule(chk, fx):
+    chk.rule('C23-forget', 'a recorded move is never forgotten: the only operation that changes a `dropped_vars` map is the insert in OwnershipChecker::drop — no remove / clear / retain / '
+                           'take / re-assignment elsewhere; a helper that erases the record of an outer variable when an inner parameter or local re-uses its name makes every later use '
+                           'of the moved outer variable acceptable')
+    MUT = {'remove', 'clear', 'retain', 'drain', 'take', 'pop', 'swap_remove', 'linear_remove', 'remove_entry', 'extend', 'insert', 'entry', 'get_mut', 'iter_mut', 'values_mut'}
+    nsite = 0
+    bad = 0
+    for f in fx.file(FILE)['fns']:
+        nm = T.norm(f['path'])
+        for c in T.calls(f['body']):
+            if c.get('k') == 'MCall' and c['n'] in MUT and T.show(T.peel(c['r'])).endswith('dropped_vars'):
+                nsite += 1
+                if c['n'] == 'insert' and nm == 'OwnershipChecker::drop':
+                    chk.ok('C23-forget', (nm, 'insert'), sample='OwnershipChecker::drop: dropped_vars.insert(..)')
+                else:
+                    bad += 1
+                    chk.bad('C23-forget', nm, 'dropped_vars.%s' % c['n'], '%s calls dropped_vars.%s(..): a move recorded for a variable can disappear, so a later use of the moved variable '
+                            'is accepted (`w = v`, then a subroutine with a parameter named `v`, then `print! v`)' % (nm, c['n']), FILE, c.get('l'))
+        for a in T.walk(f['body']):
+            if a.get('k') in ('Assign', 'AssignOp') and T.show(a['x']).endswith('dropped_vars'):
+                nsite += 1
+                chk.bad('C23-forget', nm, 'dropped_vars:=', '%s assigns to dropped_vars: recorded moves are replaced' % nm, FILE, a.get('l'))
+    chk.floor('C23 operations on dropped_vars', nsite, 1)
 
 
 def scope_rule(chk, fx, fn):
@@ -254,7 +280,17 @@ def shadow_rule(chk, fx, check_expr_fn):
         for arm in m['arms']:
             if any(v.endswith('hir::Expr::Def') for v in T.pat_variants(arm['pat'])):
                 ss = T.stmts_of(T.peel(arm['b'])) if T.peel(arm['b']).get('k') == 'Block' else []
-                idef = next((i for i, st in enumerate(ss) if any(c.get('k') == 'MCall' and c['n'] == 'define' for c in T.calls(st))), None)
+
+                def defines_a_variable(st):
+                    # a `define` reached only for subroutine signatures (`if def.sig.is_subr() { self.define(def) }`) registers no variable:
+                    # a subroutine may refer to itself, and its name holds no movable object
+                    for n_, ctx_ in T.walk_ctx(st):
+                        if n_.get('k') == 'MCall' and n_['n'] == 'define':
+                            only_subr = any(c_[0] == 'if' and c_[2] is True and T.peel(c_[1]).get('k') == 'MCall' and T.peel(c_[1])['n'] == 'is_subr' for c_ in ctx_)
+                            if not only_subr:
+                                return True
+                    return False
+                idef = next((i for i, st in enumerate(ss) if defines_a_variable(st)), None)
                 ibody = next((i for i, st in enumerate(ss) if any(c.get('k') == 'MCall' and c['n'] in ('check_block', 'check_expr') and 'body' in T.show(c) for c in T.calls(st))), None)
                 if idef is not None and ibody is not None:
                     order_ok = idef > ibody
